@@ -17,13 +17,17 @@ def loop_obj(i):
     return Obj(TypeRef("asyncio.AbstractEventLoop"), {"id": i}, tag=f"loop{i}")
 
 
-def fetch_wrapper(ctx, callable_):
-    """Stage 1: proxy.<name>  ->  list of (path, closure or None)."""
+def fetch_wrapper(ctx, callable_, fetch_on="other", loops=None):
+    """Stage 1: proxy.<name>  ->  list of (path, closure or None).  ``fetch_on``: the loop that is running while the attribute
+    is looked up (a wrapper may be fetched on one loop and called from another)."""
     repo = ctx.repo
     f = repo.func(f"{TH}:ThreadsafeProxy.__getattr__")
     cls = repo.cls(TH, "ThreadsafeProxy")
-    px = PX(repo, models=[("callable", lambda px_, t, a, k, fr: callable_)], inline=same_class())
-    owner = loop_obj(1)
+    owner, other = loops or (loop_obj(1), loop_obj(2))
+    here = owner if fetch_on == "owner" else other
+    px = PX(repo, models=[("callable", lambda px_, t, a, k, fr: callable_)] +
+            [(n, lambda px_, t, a, k, fr: here) for n in ("asyncio.get_running_loop", "asyncio._get_running_loop", "asyncio.get_event_loop",
+                                                        "asyncio.events.get_running_loop", "asyncio.events._get_running_loop")], inline=same_class())
     target = Obj(TypeRef("Target"), {"method": Sym("func")}, tag="target")
 
     def setup():
@@ -48,23 +52,29 @@ def r20_1(ctx):
     for p in paths:
         ctx.require(p.raised("TypeError") and not any(isinstance(v, Closure) for v in [p.value]), "non-callable",
                     f"non-callable attribute: {p.terminal} {p.value!r} (must raise TypeError)", func=f)
-    f, owner, paths = fetch_wrapper(ctx, True)
-    ctx.anchor(len(paths) == 1 and paths[0].terminal == "return" and isinstance(paths[0].value, Closure), "proxy attribute access returns a wrapper closure")
-    fetch_calls = [e.what for e in paths[0].events if e.kind == "call"]
-    ctx.require(not any("get_running_loop" in c or "get_event_loop" in c for c in fetch_calls), "loop-at-fetch",
-                f"the caller's loop is looked up when the attribute is fetched ({fetch_calls}); a wrapper fetched on one loop and called from another "
-                "would run on the wrong thread", func=f)
-    for same in (True, False):
-        for closed in (False, True):
-            for coro in (True, False):
-                for result in (None, "value", "raises"):
-                    if coro and result == "value":
+    def callable_value(v):
+        return isinstance(v, (Closure, Bound, Partial, FuncRef)) or v == Sym("func")
+
+    # the wrapper is fetched while the owner's loop or another loop is running, and called from either: what matters is the loop
+    # at the time of the *call* (a method object fetched on the owner's loop and called later from the other thread must still be
+    # marshalled to the owner's loop)
+    for fetch_on, same, closed, coro, result in [(fo, sm, cl, co, rs) for fo in ("other", "owner") for sm in (True, False) for cl in (False, True)
+                                                 for co in (True, False) for rs in (None, "value", "falsy", "raises")]:
+        if True:
+            if True:
+                if True:
+                    if coro and result in ("value", "falsy"):
                         continue
                     if result == "raises" and not (same and not closed):
                         continue  # the exception case is about direct calls on the owner's loop
-                    f, owner, paths = fetch_wrapper(ctx, True)
+                    if fetch_on == "owner" and (closed or result == "raises"):
+                        continue
+                    loops = (loop_obj(1), loop_obj(2))
+                    f, owner, paths = fetch_wrapper(ctx, True, fetch_on, loops)
+                    ctx.anchor(len(paths) == 1 and paths[0].terminal == "return" and callable_value(paths[0].value),
+                               f"proxy attribute access (on the {fetch_on} loop) returns something callable")
                     wrapper = paths[0].value
-                    other = loop_obj(2)
+                    other = loops[1]
                     cur = owner if same else other
                     models = [("asyncio.get_running_loop", lambda px_, t, a, k, fr: cur), ("asyncio.get_event_loop", lambda px_, t, a, k, fr: cur),
                               ("*.is_closed", lambda px_, t, a, k, fr: closed),
@@ -73,24 +83,27 @@ def r20_1(ctx):
                               ("asyncio.run_coroutine_threadsafe", lambda px_, t, a, k, fr: Outcomes(RAISE("RuntimeError")) if closed else Outcomes(OK(Sym("concurrent_future")))),
                               ("asyncio.iscoroutinefunction", lambda px_, t, a, k, fr: coro), ("inspect.iscoroutinefunction", lambda px_, t, a, k, fr: coro),
                               ("func", lambda px_, t, a, k, fr: Outcomes(RAISE("RuntimeError")) if result == "raises" else (
-                                  Sym("coroutine") if coro else (None if result is None else Obj(TypeRef("object"), {}, tag="result"))))]
+                                  Sym("coroutine") if coro else (None if result is None else (0 if result == "falsy" else Obj(TypeRef("object"), {}, tag="result")))))]
                     px = PX(repo, models=models, inline=same_class())
                     px.inline.root = f
 
                     def entry():
-                        return px.call_function(wrapper, None, [Sym("a1")], {"kw": Sym("k1")}, None)
+                        return px.do_call(wrapper, "wrapper", [Sym("a1")], {"kw": Sym("k1")}, None, None, False)
 
                     for p in px._run(entry):
                         ctx.paths += 1
                         key = f"same_loop={same},closed={closed},coroutine={coro},result={result}"
                         ev = [e for e in p.events if e.kind == "call"]
-                        direct = [e for e in ev if e.what == "func"]
+                        direct = [e for e in ev if e.what == "func" or (e.what == "wrapper" and wrapper == Sym("func"))]
                         rct = [e for e in ev if e.what.endswith("run_coroutine_threadsafe")]
                         cst = [e for e in ev if e.what.endswith("call_soon_threadsafe")]
                         wf = [e for e in ev if e.what.endswith("wrap_future")]
                         gl = [e for e in ev if "get_running_loop" in e.what or "get_event_loop" in e.what]
                         bad = None
-                        if not gl:
+                        if not gl and not same:
+                            bad = (f"fetched while the {fetch_on} loop was running, called from another loop: the caller's loop is not determined at call time "
+                                   f"(direct calls: {len(direct)}) - the method runs on the caller's thread")
+                        elif not gl and wrapper != Sym("func"):
                             bad = "the caller's loop is not determined at call time"
                         elif same and result == "raises":
                             if len(direct) != 1 or not p.raised("RuntimeError"):
@@ -136,7 +149,7 @@ def r20_1(ctx):
                         if not bad and not same and not closed:
                             part = [e for e in ev if e.what.endswith("partial")]
                         if bad:
-                            ctx.violation(f"dispatch:{key}", f"{key}: {bad}", func=f, trace=p.trace(14), construct=key)
+                            ctx.violation(f"dispatch:{key}", f"{key} (fetched on the {fetch_on} loop): {bad}", func=f, trace=p.trace(14), construct=key)
                         else:
                             ctx.ok(1, key)
 
